@@ -1,168 +1,107 @@
 (* C17 - The data logger loses, duplicates and reorders nothing; files are complete after stop.
    Property theorems only; proofs live in Proofs/*.v.
-   Models: Model/Logger.v (two-thread small-step model of DataCollection / DataSet, CURRENT code),
-           Model/Formats.v (raw / json-lines / quicklogger formatters and readers),
-           Gen/LoggerConsts.v (regenerated from /repo on every run).
-   The repaired hand-off is modelled in Model/LoggerFixed.v and proved for ALL schedules in Props/C17Fixed.v.
+   Models: Model/LoggerFixed.v  = the CURRENT code (the hand-off since commit 510a13f: write_finished is the single
+                                  "writer idle" token), built on the shared definitions of Model/Logger.v
+                                  (data sets, program counters, the writer loop, scheduling);
+           Model/Formats.v      = raw / json-lines / quicklogger formatters and readers;
+           Gen/LoggerConsts.v   = constants, header layouts and the SHAPE of the hand-off, regenerated from /repo on
+                                  every run (fail-closed translator vlib/gen_logger.py).
+   The racy hand-off of the code before 510a13f is kept as a historical record in Props/C17Before.v.
 
-   FULL STATEMENT (what C17 asks for; it is FALSE of the current code, see C17_refuted):
-
-     Theorem C17_holds : forall cfgs prog sched fuel,
-       let s := run_from fuel (init cfgs prog) sched in
-       s_crash s = None /\ map d_cfg (s_ds s) = cfgs /\
-       forall j d, nth_error (s_ds s) j = Some d ->
-         nothing_lost s d /\
-         (s_rec s = false -> written d = expected (d_cfg d) (g_arr s) /\ files_complete d).
-
-   where, for a data set d in state s,
+   For a data set d in state s:
      written d            = concatenation over its sub-files (creation order) of the messages written, tagged with the
                             session directory;
-     expected c (g_arr s) = the messages handed to update() while recording and not paused (ghost log g_arr, tagged
-                            with the session), filtered by the data set's selection c, in arrival order;
-     nothing_lost s d     = written d ++ (staged buffer, if not yet written) ++ rbuf = expected ... (no loss, no
-                            duplicate, no reordering, at every point of every execution);
+     expected c (g_arr s) = the messages handed to update() while recording and not paused (ghost log g_arr, tagged with
+                            the session), filtered by the data set's selection c, in arrival order;
+     nothing_lost s d     = written d ++ (staged buffer, if not yet written) ++ rbuf = expected ...   (no loss, no
+                            duplicate, no reordering - at every point of every execution);
      files_complete d     = every file has been finalised and closed.
-
-   What is proved about the current code is C17_partial: the same statement for every program, every schedule and every
-   fuel PROVIDED the ghost flag g_stale is false at the end, i.e. the writer never executed write_finished.set() after
-   the recorder's write_finished.clear() of a newer trigger_write.  g_stale is a boolean computed by `run` itself
-   (decidable exclusion); C17_refuted shows that the exclusion is necessary. *)
+   A schedule is a list of thread ids; `run_fromF fuel (initF cfgs prog) sched` executes `fuel` atomic steps of the
+   recorder program `prog` interleaved with the writer thread as the schedule dictates. *)
 From Coq Require Import ZArith List Bool Lia.
-From Logr Require Import Gen.LoggerConsts Model.Formats Model.Logger.
-From Logr Require Import Proofs.LoggerData Proofs.LoggerInv Proofs.LoggerRun Proofs.LoggerWindow Proofs.FormatsProofs.
+From Logr Require Import Gen.LoggerConsts Model.Formats Model.Logger Model.LoggerFixed.
+From Logr Require Import Proofs.LoggerData Proofs.LoggerInv Proofs.LoggerRun Proofs.LoggerFixedInv Proofs.FormatsProofs.
 Import ListNotations.
 Open Scope Z_scope.
 
-(* the layout constants used by Model/Formats.v are the ones the code has today *)
+(* the layout constants used by Model/Formats.v and the hand-off shape modelled by Model/LoggerFixed.v are the ones the
+   code has today *)
 Theorem C17_gen_consts :
   gen_hdr_size = Z.of_nat HDR /\ gen_hdr_ndb_off = Z.of_nat NDB_OFF /\ gen_ql_order = [0; 1; 2; 3; 4; 5] /\
   gen_ql_format_version = 1 /\ gen_ql_offset_size = 4 /\ gen_ql_init_messages = 0 /\
-  Z.of_nat QLH = 4 * Z.of_nat (length gen_ql_order).
+  Z.of_nat QLH = 4 * Z.of_nat (length gen_ql_order) /\
+  gen_handoff_init_sets_write_finished = true /\ gen_handoff_update_gates_on_write_finished = true /\
+  gen_handoff_stop_waits_unconditionally = true /\ gen_handoff_stop_clears_nothing = true /\
+  gen_handoff_writer_clear_then_set = true /\ gen_handoff_trigger_stage_clear_set = true.
 Proof. repeat split; reflexivity. Qed.
 
-(* ---- the current hand-off is racy ------------------------------------------------------------------------------- *)
-Definition wit_cfgs : list cfg := [mk_cfg FRaw 0 [gen_all_message_types]].
-Definition wit_prog : list op :=
-  [Start; Tick 16; Upd (Some (mkM 1 1001)); Tick 16; Upd (Some (mkM 2 1001)); Upd (Some (mkM 3 1001)); Stop].
-(* the writer clears write_to_disk (4th W); the recorder triggers the next write inside the window; the writer's late
-   set() leaves a stale write_finished; stop() does not wait and restages while message 2 is still in wbuf *)
-Definition wit_loss : list tid :=
-  [R; R; R; R; R; R; R; W; W; W; W; R; R; R; R; R; R; R; R; R; W; R; R; R; R; R; R; W; R].
-Definition wit_crash : list tid :=
-  [R; R; R; R; R; R; R; W; W; W; W; R; R; R; R; R; R; R; R; R; W; W; W; R; R; R; R; R; W].
-
-Fixpoint ids_eqb (a b : list (Z * Z)) : bool :=
-  match a, b with
-  | [], [] => true
-  | (x1, y1) :: r, (x2, y2) :: t => (x1 =? x2) && (y1 =? y2) && ids_eqb r t
-  | _, _ => false
-  end.
-Lemma ids_eqb_eq a : forall b, ids_eqb a b = true -> a = b.
-Proof.
-  induction a as [|(x1, y1) r IH]; intros [|(x2, y2) t] H; simpl in H; try discriminate; [reflexivity|].
-  apply andb_true_iff in H. destruct H as (H & H3). apply andb_true_iff in H. destruct H as (H1 & H2).
-  apply Z.eqb_eq in H1. apply Z.eqb_eq in H2. subst. rewrite (IH t H3). reflexivity.
-Qed.
-Definition first_ds_wrote (s : state) (w e : list (Z * Z)) : bool :=
-  match nth_error (s_ds s) 0 with
-  | Some d => ids_eqb (ids (written d)) w && ids_eqb (ids (expected (d_cfg d) (g_arr s))) e
-  | None => false
-  end.
-
-(* a terminated run without any exception, recording stopped, in which a selected message is missing from the files *)
-Theorem C17_refuted : exists cfgs prog sched,
-  let s := run cfgs prog sched in
-  finished s = true /\ s_crash s = None /\ s_rec s = false /\
-  exists d, nth_error (s_ds s) 0 = Some d /\ written d <> expected (d_cfg d) (g_arr s) /\
-            ids (written d) = [(1, 1); (1, 3)] /\ ids (expected (d_cfg d) (g_arr s)) = [(1, 1); (1, 2); (1, 3)].
-Proof.
-  exists wit_cfgs, wit_prog, wit_loss. cbv zeta.
-  assert (G : forall s, first_ds_wrote s [(1, 1); (1, 3)] [(1, 1); (1, 2); (1, 3)] = true ->
-            exists d, nth_error (s_ds s) 0 = Some d /\ written d <> expected (d_cfg d) (g_arr s) /\
-            ids (written d) = [(1, 1); (1, 3)] /\ ids (expected (d_cfg d) (g_arr s)) = [(1, 1); (1, 2); (1, 3)]).
-  { intros s H. unfold first_ds_wrote in H. destruct (nth_error (s_ds s) 0) as [d|]; [|discriminate].
-    apply andb_true_iff in H. destruct H as (H1 & H2). apply ids_eqb_eq in H1. apply ids_eqb_eq in H2.
-    exists d. split; [reflexivity|]. split; [|split; assumption].
-    intros X. rewrite X, H2 in H1. discriminate. }
-  split; [vm_compute; reflexivity|]. split; [vm_compute; reflexivity|]. split; [vm_compute; reflexivity|].
-  apply G. vm_compute. reflexivity.
-Qed.
-
-(* the same window can also end in a Python exception in the writer thread (write on the file stop() has closed) *)
-Theorem C17_refuted_crash : exists cfgs prog sched, s_crash (run cfgs prog sched) = Some W.
-Proof. exists wit_cfgs, wit_prog, wit_crash. vm_compute. reflexivity. Qed.
-
-(* both witnesses are in the excluded class *)
-Example C17_witnesses_are_stale :
-  g_stale (run wit_cfgs wit_prog wit_loss) = true /\ g_stale (run wit_cfgs wit_prog wit_crash) = true.
-Proof. split; vm_compute; reflexivity. Qed.
-
-(* ---- every program, every schedule, any number of steps: without a stale set() nothing is lost ------------------- *)
-Theorem C17_partial : forall cfgs prog sched fuel,
-  let s := run_from fuel (init cfgs prog) sched in
-  g_stale s = false ->
+(* ---- THE PROPERTY: every configuration, every recorder program, EVERY schedule, any number of steps ------------------ *)
+Theorem C17_holds : forall cfgs prog sched fuel,
+  let s := run_fromF fuel (initF cfgs prog) sched in
   s_crash s = None /\ map d_cfg (s_ds s) = cfgs /\
   forall j d, nth_error (s_ds s) j = Some d ->
     nothing_lost s d /\
     (s_rec s = false -> written d = expected (d_cfg d) (g_arr s) /\ files_complete d).
 Proof.
-  intros cfgs prog sched fuel s Hst.
-  pose proof (run_from_inv fuel (init cfgs prog) sched (Inv_init cfgs prog) Hst) as HI. fold s in HI.
-  split; [exact (I_crash s HI)|]. split; [unfold s; rewrite run_from_cfgs; apply init_cfgs|].
+  intros cfgs prog sched fuel s.
+  pose proof (run_fromF_inv fuel (initF cfgs prog) sched (InvF_init cfgs prog)) as HF. fold s in HF.
+  pose proof (F_inv s HF) as HI.
+  split; [exact (I_crash s HI)|]. split; [unfold s; rewrite run_fromF_cfgs; apply initF_cfgs|].
   intros j d Hj. split; [exact (Inv_nothing_lost s j d HI Hj)|].
   intros Hrec. exact (Inv_complete s j d HI Hrec Hj).
 Qed.
 
 (* the instance for complete runs *)
-Corollary C17_partial_run : forall cfgs prog sched,
-  let s := run cfgs prog sched in
-  g_stale s = false ->
+Corollary C17_holds_run : forall cfgs prog sched,
+  let s := runF cfgs prog sched in
   s_crash s = None /\
   forall j d, nth_error (s_ds s) j = Some d ->
     s_rec s = false -> written d = expected (d_cfg d) (g_arr s) /\ files_complete d.
 Proof.
-  intros cfgs prog sched s Hst.
-  destruct (C17_partial cfgs prog sched (fuel_for cfgs prog sched) Hst) as (A & _ & B).
+  intros cfgs prog sched s.
+  destruct (C17_holds cfgs prog sched (fuel_for cfgs prog sched)) as (A & _ & B).
   split; [exact A|]. intros j d Hj Hrec. exact (proj2 (B j d Hj) Hrec).
 Qed.
 
-(* a schedule-level sufficient condition for the exclusion: sequential hand-off, i.e. no recorder step is scheduled
-   while the writer is between write_to_disk.clear() and write_finished.set() *)
-Theorem C17_sequential_handoff : forall cfgs prog sched fuel,
-  window_free_from fuel (init cfgs prog) sched = true ->
-  g_stale (run_from fuel (init cfgs prog) sched) = false.
+(* the token discipline: write_finished set => write_to_disk clear and the writer idle at the head of its loop; the
+   stale "finished" of the code before 510a13f (ghost flag g_stale) cannot arise *)
+Theorem C17_token : forall cfgs prog sched fuel,
+  let s := run_fromF fuel (initF cfgs prog) sched in
+  g_stale s = false /\ (s_wf s = true -> s_wtd s = false /\ (s_wpc s = W_Wait \/ s_wpc s = W_Done)).
 Proof.
-  intros cfgs prog sched fuel H.
-  apply window_free_not_stale; [apply Inv_init|reflexivity|intros X; discriminate X|exact H].
+  intros cfgs prog sched fuel s.
+  pose proof (run_fromF_inv fuel (initF cfgs prog) sched (InvF_init cfgs prog)) as HF. fold s in HF.
+  split; [exact (F_stale s HF)|]. intros H. destruct (F_G1 s HF H) as (A & B). split; [exact A|].
+  destruct (s_wpc s); simpl in B; try discriminate; auto.
 Qed.
 
-(* the exclusion is satisfiable by a non-trivial history: two data sets (quicklogger with 30 s subdivision, json
-   selecting two types), pause/resume, three timed flushes, a subdivision, two recordings on the same collection, the
-   writer interleaved with the recorder (schedule W R R W R R ...); 9 messages offered, 7 recorded *)
+(* non-vacuity: two data sets (quicklogger with 30 s subdivision, json selecting two types), pause/resume, timed
+   flushes, a subdivision, two recordings on the same collection, the writer interleaved with the recorder
+   (schedule W W R W W R ...: 30 writer steps between recorder steps); 9 messages offered, 7 recorded *)
 Definition ex_cfgs : list cfg := [mk_cfg FQL 30 [gen_all_message_types]; mk_cfg FJson 0 [1002; 1003]].
 Definition ex_prog : list op :=
   [Start; Upd (Some (mkM 1 1001)); Tick 16; Upd (Some (mkM 2 1002)); Upd (Some (mkM 3 1001)); Pause;
    Upd (Some (mkM 4 1002)); Resume; Tick 16; Upd (Some (mkM 5 1003)); Upd None; Tick 20; Upd (Some (mkM 6 1002)); Stop;
    Upd (Some (mkM 7 1002)); Start; Upd (Some (mkM 8 1003)); Tick 40; Upd (Some (mkM 9 1001)); Stop].
 Fixpoint rep (n : nat) (l : list tid) : list tid := match n with O => [] | S k => l ++ rep k l end.
-Definition ex_sched : list tid := rep 60 [W; R; R].
+Definition ex_sched : list tid := rep 60 [W; W; R].
 
-Example C17_partial_nonvacuous :
-  let s := run ex_cfgs ex_prog ex_sched in
-  g_stale s = false /\ finished s = true /\ s_rec s = false /\
-  window_free_from (fuel_for ex_cfgs ex_prog ex_sched) (init ex_cfgs ex_prog) ex_sched = false /\
+Example C17_nonvacuous :
+  let s := runF ex_cfgs ex_prog ex_sched in
+  finished s = true /\ s_rec s = false /\ s_warn s = 1%nat /\
+  length (filter (tid_eqb W) (traceF ex_cfgs ex_prog ex_sched)) = 30%nat /\
   map (fun d => ids (written d)) (s_ds s) =
     [[(1, 1); (1, 2); (1, 3); (1, 5); (1, 6); (2, 8); (2, 9)]; [(1, 2); (1, 5); (1, 6); (2, 8)]] /\
-  map (fun d => length (d_files d)) (s_ds s) = [4%nat; 2%nat].
+  map (fun d => map (fun f => (f_session f, f_sub f, length (f_writes f))) (d_files d)) (s_ds s) =
+    [[(1, 0, 2); (1, 1, 1); (2, 0, 1)]; [(1, 0, 3); (2, 0, 1)]]%nat.
 Proof. vm_compute. repeat split; reflexivity. Qed.
 
-(* (in ex_sched the recorder does step inside the writer's window - harmlessly; the tight exclusion g_stale admits it,
-   the schedule-level condition does not.)  A writer-first schedule is a sequential hand-off: *)
-Example C17_sequential_nonvacuous :
-  let sched := rep 200 [W] in
-  window_free_from (fuel_for ex_cfgs ex_prog sched) (init ex_cfgs ex_prog) sched = true /\
-  finished (run ex_cfgs ex_prog sched) = true /\ s_warn (run ex_cfgs ex_prog sched) = 0%nat /\
-  length (filter (tid_eqb W) (trace ex_cfgs ex_prog sched)) = 38%nat.
+(* the schedule that lost message 2 before 510a13f (Props/C17Before.v) is harmless now *)
+Example C17_on_old_witness :
+  let s := runF [mk_cfg FRaw 0 [gen_all_message_types]]
+                [Start; Tick 16; Upd (Some (mkM 1 1001)); Tick 16; Upd (Some (mkM 2 1001)); Upd (Some (mkM 3 1001)); Stop]
+                [R; R; R; R; R; R; R; W; W; W; W; R; R; R; R; R; R; R; R; R; W; R; R; R; R; R; R; W; R] in
+  finished s = true /\ s_rec s = false /\ map (fun d => ids (written d)) (s_ds s) = [[(1, 1); (1, 2); (1, 3)]].
 Proof. vm_compute. repeat split; reflexivity. Qed.
 
 (* ---- file formats: the readers invert the formatters ------------------------------------------------------------ *)
@@ -205,9 +144,9 @@ Example C17_ql_file_multi_write :
 Proof. split; [repeat constructor|split; vm_compute; reflexivity]. Qed.
 
 (* ---- composition: after stop, every file of every data set reads back, and the concatenation is what was selected -- *)
-Corollary C17_partial_files : forall cfgs prog sched fuel,
-  let s := run_from fuel (init cfgs prog) sched in
-  g_stale s = false -> s_rec s = false ->
+Corollary C17_files : forall cfgs prog sched fuel,
+  let s := run_fromF fuel (initF cfgs prog) sched in
+  s_rec s = false ->
   Forall (fun sm => wf_msg (snd sm)) (g_arr s) ->
   forall j d k f, nth_error (s_ds s) j = Some d -> nth_error (d_files d) k = Some f ->
     written d = expected (d_cfg d) (g_arr s) /\
@@ -215,8 +154,8 @@ Corollary C17_partial_files : forall cfgs prog sched fuel,
     read_raw (render FRaw f) = Some (map observe (f_msgs f)) /\
     (24 + tots (f_msgs f) < 4294967296 -> read_ql (render FQL f) = Some (map observe (f_msgs f))).
 Proof.
-  intros cfgs prog sched fuel s Hst Hrec Hwf j d k f Hj Hk.
-  destruct (C17_partial cfgs prog sched fuel Hst) as (_ & _ & B). fold s in B.
+  intros cfgs prog sched fuel s Hrec Hwf j d k f Hj Hk.
+  destruct (C17_holds cfgs prog sched fuel) as (_ & _ & B). fold s in B.
   destruct (B j d Hj) as (_ & C). destruct (C Hrec) as (Hw & Hc). destruct (Hc k f Hk) as (Hcl & Hfin).
   assert (Hm : Forall wf_msg (f_msgs f)).
   { apply Forall_forall. intros m Hm.
